@@ -56,6 +56,28 @@ def gen_cases(tier, seed):
                         p = {"y": r.randrange(1990, 2030), "m": r.randrange(1, 13), "d": r.randrange(1, 29), "dow": r.randrange(7)}
                         cases.append({"dn": dn, "p": p, "cn": "pod/" + form, "pod": w, "h12": h12, "h": h12 + 12 if pm else h12, "mi": mi, "o": order, "c": conn,
                                       "ts": C.iso(r.choice(REFS))})
+    # clock notations written in words (C06 counts them among the notations): midnight, named hours, spoken quarter/half
+    words = []
+    for w in G.MIDNIGHT:
+        words.append(("word/midnight", w, 0, 0))
+    for i in range(12):
+        for w in (G.HOUR_EN[i] + " o'clock", G.HOUR_DE[i] + " uhr"):
+            words.append(("word/named", w, i + 1, 0))
+    for pre, (dh, mm) in G.SPOKEN.items():
+        for h in (1, 5, 6, 9, 12, 17, 23):
+            hf = G.SPOKEN_HOUR_FORMS[("d", "d uhr", "d o'clock")[(h + len(pre)) % 3]]
+            words.append(("word/spoken", "%s %s" % (pre, hf(h)), (h + dh) % 24, mm))
+    for dn in G.DAY_FORMS:
+        for order in ("day-clock", "clock-day"):
+            for conn in G.COMPOSE_CONN:
+                for cn, ct, h, mi in (words if tier == "thorough" else r.sample(words, 4)):
+                    # day parameters and reference time are a fixed function of the combination (not of the seed): the
+                    # thorough tier enumerates this family completely, the quick tier replays a seeded subset of the SAME
+                    # cases, so the set of beam-truncation families it can meet is closed
+                    import zlib
+                    hsh = zlib.crc32(("%s|%s|%s|%s" % (dn, ct, order, conn)).encode("utf-8"))
+                    p = {"y": 1990 + hsh % 40, "m": 1 + (hsh >> 6) % 12, "d": 1 + (hsh >> 10) % 28, "dow": (hsh >> 15) % 7}
+                    cases.append({"dn": dn, "p": p, "cn": cn, "ct": ct, "h": h, "mi": mi, "o": order, "c": conn, "ts": C.iso(REFS[(hsh >> 18) % len(REFS)])})
     r.shuffle(cases)
     return cases
 
@@ -68,6 +90,8 @@ def run_case(case, ctx):
         fn0, fl = G.POD_CLOCK[case["cn"][4:]]
         clock = "%s %s" % (fn0(case["h12"], case["mi"]), case["pod"])
         fn = None
+    elif case["cn"].startswith("word/"):
+        clock, fl, fn = case["ct"], {"hour_only": case["cn"] == "word/named"}, None
     else:
         fn, fl = G.CLOCK[case["cn"]]
         clock = fn(case["h"], case["mi"])
@@ -91,6 +115,9 @@ def run_case(case, ctx):
             and case["cn"] not in ("HH:MM Uhr", "H:MMuhr", "H:MMh", "H:MM h", "H.MM Uhr", "H Uhr", "Huhr", "Hh", "H h"):
         # (with a clock word between the digits and 'am' - '12:30 Uhr am Freitag' - the 'am' is not *directly* after the
         # clock time and the library reads it as the German preposition; the four-digit forms stay excluded)
+        return {"st": "excl", "sig": "12:xx-followed-by-german-am", "key": key, "cls": cls}
+    if case["o"] == "clock-day" and case["cn"].startswith("word/") and day.startswith("am ") and clock.endswith(" 12"):
+        # 'quarter past 12 am freitag': the same '12 am' ambiguity, with the hour at the end of a spoken form
         return {"st": "excl", "sig": "12:xx-followed-by-german-am", "key": key, "cls": cls}
     rd = C.api(ctx, day, ts)
     dv = C.resv(rd)
@@ -131,6 +158,8 @@ def run_case(case, ctx):
 def _cfam(cn):
     if cn.startswith("pod/"):
         return "pod-clock"
+    if cn.startswith("word/"):
+        return cn
     fl = G.CLOCK[cn][1]
     if fl.get("military"):
         return "military"
